@@ -84,7 +84,16 @@ func (gen *generator) irBoolConst(t types.Type, old *ast.BoolConst) (*constant.I
 	if !typ.Equal(types.I1) {
 		return nil, errors.Errorf("boolean type mismatch; expected %q, got %q", types.I1, typ)
 	}
-	return constant.NewBool(boolLit(old.BoolLit())), nil
+	x := boolLit(old.BoolLit())
+	if typ.Name() != "" {
+		// Boolean constant of a named i1 type (e.g. `%bool = type i1`); keep the
+		// type it is written with, like integer constants do.
+		if x {
+			return constant.NewInt(typ, 1), nil
+		}
+		return constant.NewInt(typ, 0), nil
+	}
+	return constant.NewBool(x), nil
 }
 
 // --- [ Integer constants ] ---------------------------------------------------
